@@ -122,7 +122,7 @@ def evaluate(case) -> Verdict:
         data = gd.decode(case["data"])
         before = snap(data)
         s0, f0 = str(t), fingerprint(t.nodes)
-        o1 = oc.short(oc.outcome_of(lambda: t.render(**data)))
+        o1 = oc.short(oc.render(src, lambda: t, **data))
         after = snap(data)
         if after != before:
             culprit = next((k for k in data if snap(data[k]) != dict(before[1])[snap(k)]), "?")
@@ -130,7 +130,7 @@ def evaluate(case) -> Verdict:
         if str(t) != s0 or fingerprint(t.nodes) != f0:
             v.fail("template-mutated", f"render changed the parsed template: {src!r:.300}")
         data2 = copy.deepcopy(gd.decode(case["data"]))
-        o2 = oc.short(oc.outcome_of(lambda: t.render(**data2)))
+        o2 = oc.short(oc.render(src, lambda: t, **data2))
         if o1 != o2:
             v.fail("second-render-differs", f"first={o1!r:.150} second={o2!r:.150}: {src!r:.300}")
         v.nontrivial = any(isinstance(x, (list, dict)) for x in data.values()) and '"filters": [{' in core.canon(case["main"])
